@@ -521,17 +521,30 @@ type hangSentinel struct{}
 // filling stay half-filled, so the process must not execute further runs.
 var unwound bool
 
+// markUnwound may be called by several task goroutines in one run; like every
+// piece of harness state shared between tasks it is touched only in norace code.
+//
+//go:norace
+func markUnwound() { unwound = true }
+
+//go:norace
+func takeUnwound() bool {
+	u := unwound
+	unwound = false
+	return u
+}
+
 // Exec runs one operation under recover.
 func Exec(def *OpDef, a *Args) (o Outcome) {
 	defer func() {
 		if r := recover(); r != nil {
 			if _, ok := r.(hangSentinel); ok {
-				unwound = true
+				markUnwound()
 				o = Outcome{Hang: true, Panic: "hang: step budget exceeded"}
 				return
 			}
 			if _, ok := r.(deadlockSentinel); ok {
-				unwound = true
+				markUnwound()
 				o = Outcome{Hang: true, Panic: "deadlock: the task waits for a lock that no runnable task can release"}
 				return
 			}
